@@ -139,6 +139,79 @@ CONTRACTS.append(Contract(
     descr="all 16-word inputs",
 ))
 
+# ---- DES key expansion (7 <-> 8 bytes) ----------------------------------------------------------------
+DES = "passlib/crypto/des.py"
+
+
+def _shrink_spec(it, env):
+    k = it.to_z3(env.lookup("key"), "int")
+    want = sum(((k / 2 ** (8 * j + 1)) % 128) * 2 ** (7 * j) for j in range(8))
+    return it.to_z3(env.lookup("result"), "int") == want
+
+
+def _unpack56(it, args, kwargs):
+    src = it.resolve(args[0])
+    items = [it.to_z3(x, "int") for x in src.items]
+    return SInt(sum(b * 2 ** (8 * (6 - j)) for j, b in enumerate(items)))
+
+
+def _expand_spec(it, env):
+    src = it.resolve(env.lookup("key"))
+    k = sum(it.to_z3(b, "int") * 2 ** (8 * (6 - j)) for j, b in enumerate(src.items))
+    want = [((k / 2 ** (49 - 7 * j)) % 128) * 2 for j in range(8)]  # 7 key bits, most significant group first, parity bit 0
+    return it.cmp_vals("==", env.lookup("result"), it.make_bytes(tuple(SInt(w) for w in want)))
+
+
+from pyvc.contract import BytesOfLen
+
+CONTRACTS.append(Contract(
+    "shrink_des_key[int]", f"{DES}::shrink_des_key",
+    params={"key": Int(-(2**100), 2**100)},
+    ints="bv128",
+    raises_iff={"ValueError": f"key < 0 or key > {2**64 - 1}"},
+    ensures=[("result packs bits 1..7 of every byte, byte 0 least significant", _shrink_spec), ("56-bit result", f"0 <= result <= {2**56 - 1}")],
+    loops={"shrink_des_key#0": Loop(unroll=8)},
+    descr="all integers of magnitude < 2^100 (128-bit vectors; no-overflow side obligations)",
+))
+CONTRACTS.append(Contract(
+    "expand_des_key[bytes]", f"{DES}::expand_des_key",
+    params={"key": BytesOfLen(7)},
+    globals={"_unpack56": SStub(_unpack56, "_unpack56", trusted="struct big-endian 56-bit")},
+    ensures=[("byte j carries key bits 55-7j .. 49-7j in its upper 7 bits, parity bit 0", _expand_spec)],
+    descr="all 7-byte keys",
+))
+for _n in (6, 8):
+    CONTRACTS.append(Contract(
+        f"expand_des_key[bytes len={_n}]", f"{DES}::expand_des_key",
+        params={"key": BytesOfLen(_n)},
+        raises={"ValueError": None},
+        ensures=[("wrong length is refused", "False")],
+        descr="wrong key size",
+    ))
+
+
+def _des_key_roundtrip():
+    k = z3.BitVec("k", 64)
+    exp = [z3.ZeroExt(0, ((k >> (49 - 7 * j)) & 0x7F) << 1) for j in range(8)]  # the expand contract, as bytes
+    as_int = sum(exp[j] << (8 * (7 - j)) for j in range(8))                       # _unpack64 of those bytes
+    shr = sum((((as_int >> (8 * j + 1)) & 0x7F) << (7 * j)) for j in range(8))     # the shrink contract
+    return [("shrink_des_key(expand_des_key(k)) == k for every 56-bit k", [z3.ULE(k, z3.BitVecVal(2**56 - 1, 64))], shr == k)]
+
+
+LEMMAS = [Lemma("des-key-roundtrip", _des_key_roundtrip, "7<->8 byte DES key conversion is lossless (over the two contracts)")]
+
+# ---- scrypt parameter validation -----------------------------------------------------------------------
+SC = "passlib/crypto/scrypt/__init__.py"
+_POW2 = " or ".join(f"n == {2**k}" for k in range(1, 62))
+CONTRACTS.append(Contract(
+    "scrypt.validate", f"{SC}::validate",
+    params={"n": Int(-(2**61), 2**61), "r": Int(-(2**31), 2**31), "p": Int(-(2**31), 2**31)},
+    ints="bv64",
+    raises_iff={"ValueError": f"r < 1 or p < 1 or r * p > {2**30 - 1} or n < 2 or not ({_POW2})"},
+    ensures=[("accepts", "result is True")],
+    descr="n up to 2^61, r/p up to 2^31 (64-bit vectors, multiplication proved not to overflow)",
+))
+
 BOUNDED = [Bounded("c11", "harness/c11.py", descr="DES / bcrypt core / MD4 splits / scrypt / HMAC / PBKDF / SASLprep vs independent references", timeout=900)]
 
 MUTANTS = [
@@ -152,5 +225,10 @@ MUTANTS = [
     ("salsa: three double rounds", SALSA, "    while i < 4:\n", "    while i < 3:\n", "refute"),
     ("salsa: final add misses mask", SALSA, "    b7 = (b7 + v7) & 0xFFFFFFFF\n", "    b7 = (b7 + v7) & 0xFFFFFFF\n", "refute"),
     ("md4: round 1 table row dropped", M, "        [3, 0, 1, 2, 13, 7],\n", "", "refute"),
+    ("shrink_des_key: drops parity from the wrong end", DES, "    key >>= 1\n    result = 0\n", "    key >>= 0\n    result = 0\n", "refute"),
+    ("shrink_des_key: 6 bit groups", DES, "        result |= (key & 0x7F) << offset\n", "        result |= (key & 0x3F) << offset\n", "refute"),
+    ("expand_des_key: shift table start", DES, "_EXPAND_ITER = range(49, -7, -7)\n", "_EXPAND_ITER = range(48, -8, -7)\n", "refute"),
+    ("scrypt.validate: accepts n == 1", SC, "    if n < 2 or n & (n - 1):\n", "    if n < 1 or n & (n - 1):\n", "refute"),
+    ("scrypt.validate: r*p bound off by one", SC, "    if r * p > MAX_RP:\n", "    if r * p > MAX_RP + 1:\n", "refute"),
     ("md4: harmless F rewrite", M, "    return (x & y) | ((~x) & z)\n", "    return ((~x) & z) | (y & x)\n", "hold"),
 ]
